@@ -55,7 +55,7 @@ func replayFile(tb *plugin.Toolbox, path string, seed int64) int {
 		return 2
 	}
 	r := report.New(rp.Property, rp.Tier, rp.Seed)
-	c := &Ctx{TB: tb, R: r, Tier: rp.Tier, Seed: rp.Seed, Scratch: tb.Scratch, Only: rp.Case}
+	c := &Ctx{TB: tb, R: r, Tier: rp.Tier, Seed: rp.Seed, Scratch: tb.Scratch, Only: rp.Case, Full: FullInQuick[rp.Property]}
 	fn(c)
 	return r.Finish()
 }
